@@ -375,6 +375,28 @@ def rule_edit_probes():
     return out
 
 
+def stereo_statement_probes():
+    """Every assignment of the four label slots of a stereo statement from
+    {substituents, the two double-bond atoms, a singly bonded pair, an
+    undefined label} x stereo type x negation, on one fixed skeleton."""
+    import itertools
+    pat = ('fragment s{C labeled a1 C labeled c1 single bond to a1 C labeled '
+           'c2 double bond to c1 C labeled b1 single bond to c2 C labeled b2 '
+           'single bond to c2 ')
+    labels = ['a1', 'b1', 'b2', 'c1', 'c2', 'zz']
+    out = []
+    for x, y, c, d in itertools.product(labels, repeat=4):
+        for k, ty in enumerate(('cis', 'trans', 'notspecified', 'gauche')):
+            if ty in ('notspecified', 'gauche') and (x, y) != ('a1', 'b1') \
+                    and (c, d) != ('c1', 'c2'):
+                continue
+            neg = '!' if (labels.index(x) + labels.index(d) + k) % 3 == 0 \
+                else ''
+            out.append(pat + 'stereo double bond %s %s%s to %s for double '
+                       'bond between %s and %s}' % (x, neg, ty, y, c, d))
+    return out
+
+
 def valid_corpus(ctx, rng, n):
     out = []
     for _ in range(n):
@@ -434,6 +456,10 @@ def run_shard(ctx):
     for i, t in enumerate(rule_edit_probes()):
         if ctx.mine(i):
             check_text(ctx, t, 'systematic rule-edit probe')
+    sp = stereo_statement_probes()
+    for i, t in enumerate(sp):
+        if ctx.mine(i) and (not q or i % 3 == ctx.seed % 3):
+            check_text(ctx, t, 'systematic stereo-statement probe')
     for _ in range(300 if q else 20000):
         check_text(ctx, random_text(rng), 'random text')
     sizes = [50, 120, 150, 200, 300, 400]
